@@ -366,6 +366,7 @@ wait:
 		res.Extra = map[string]interface{}{}
 	}
 	runBoxCases(*outDir, res.Extra)
+	runHexCases(*seed, 4000, *outDir, res.Extra)
 	if err := res.Write(resPath); err != nil {
 		fmt.Fprintln(os.Stderr, "cssoracle:", err)
 		os.Exit(2)
